@@ -540,7 +540,7 @@ func init() {
 		jobs: func(tier string) []job {
 			js := []job{J(".", "VX_C13_Redial", 1, 0, 1), J(".", "VX_C13_Redial", 1, 1, 0), J(".", "VX_C13_Redial", 2, 0, 0), J(".", "VX_C13_Redial", 2, 1, 1), J(".", "VX_C13_Redial", 1, 2, 1), J(".", "VX_C13_Redial", 9, 0, 0),
 				J(".", "VX_C13_LossWhileLaunching", 1, 1), J(".", "VX_C13_LossWhileLaunching", 1, 0), J(".", "VX_C13_LossWhileLaunching", 2, 1),
-				J(".", "VX_C13_TwoOutages", 2, 2), J(".", "VX_C13_TwoOutages", 1, 3), J(".", "VX_C13_TwoOutages", 3, 2)}
+				J(".", "VX_C13_TwoOutages", 2, 2), J(".", "VX_C13_TwoOutages", 1, 3), J(".", "VX_C13_TwoOutages", 3, 2), J(".", "VX_C13_TwoOutages", 2, 1, 1), J(".", "VX_C13_TwoOutages", 3, 2, 1)}
 			if tier == "thorough" {
 				js = append(js, J(".", "VX_C13_Redial", 9, 0, 1), J(".", "VX_C13_Redial", 2, 0, 1), J(".", "VX_C13_Redial", 1, 0, 0))
 			}
@@ -615,7 +615,7 @@ func init() {
 			for sc := 0; sc <= 6; sc++ {
 				js = append(js, J(".", "VX_C14_Races", sc, 0))
 			}
-			js = append(js, J(".", "VX_C14_Races", 0, 1), J(".", "VX_C14_Races", 4, 1), J(".", "VX_C14_Races", 14, 0))
+			js = append(js, J(".", "VX_C14_Races", 0, 1), J(".", "VX_C14_Races", 4, 1), J(".", "VX_C14_Races", 14, 0), J(".", "VX_C14_Races", 15, 0))
 			js = append(js, J(".", "VX_C14_DisconnectWhileLaunching", 0), J(".", "VX_C14_DisconnectWhileLaunching", 1), J(".", "VX_C14_DisconnectWhileLaunching", 0, 1), J(".", "VX_C14_DisconnectWhileLaunching", 1, 2))
 			js = append(js, J(".", "VX_C14_Races", 7, 0), J(".", "VX_C14_Races", 8, 0), J(".", "VX_C14_Races", 7, 1), J(".", "VX_C14_Races", 8, 1), J(".", "VX_C14_Races", 9, 0), J(".", "VX_C14_Races", 10, 0), J(".", "VX_C14_Races", 11, 0), J(".", "VX_C14_Races", 12, 0), J(".", "VX_C14_Races", 13, 0))
 			if tier == "thorough" {
